@@ -253,6 +253,51 @@ def values(out_path):
                                         F.add("footer_dtype", case, hdr[:1], toks, what="table header dtype row")
                                 elif [x.strip() for x in tok.split(",")] not in (toks, [toks[0]] if len(set(toks)) == 1 else toks):
                                     F.add("footer_dtype", case, tok, toks, what="table")
+    # empty vectors that still have a dtype (an empty slice, a mask that keeps nothing, Vector([], dtype=...)): whatever the
+    # footer states - a count, a dtype - is true.  A footer that states neither ("# empty ...") says nothing false.
+    for tag, specials in VALUE_CLASSES.items():
+        if tag == "object":
+            continue
+        filler = specials[-1]
+        for with_none in (False, True):
+            src = [filler, None, filler] if with_none else [filler, filler, filler]
+            st0, v, e0 = attempt(lambda: Vector(list(src), name="x"))
+            if st0 != "ok":
+                continue
+            makers = {"empty slice": lambda: v[0:0], "slice past the end": lambda: v[5:], "mask keeping nothing": lambda: v[[False] * 3],
+                      "Vector([], dtype)": lambda: Vector([], dtype=v.schema().kind)}
+            for how, mk in makers.items():
+                stw, w, ew = attempt(mk)
+                if stw != "ok" or not isinstance(w, Vector) or len(w) != 0:
+                    continue
+                case = {"dtype": tag, "empty by": how, "none": with_none}
+                st, r, e = attempt(lambda: repr(w))
+                ex += 1
+                if st != "ok" or not isinstance(r, str):
+                    F.add("repr_raises", case, type(e).__name__ + ": " + str(e)[:60], "a string", what="empty vector")
+                    continue
+                foot = r.split("\n")[-1]
+                m = VEC_FOOT.match(foot)
+                mm = re.search(r"<(\w+\??)>", foot)
+                cnt = re.search(r"(\d+) element", foot)
+                if m and (int(m.group(1)) != 0 or (m.group(2) + (m.group(3) or "")) != dtype_token(w.schema())):
+                    F.add("footer", case, foot, f"# 0 element vector <{dtype_token(w.schema())}>", what="empty vector")
+                elif not m and mm and mm.group(1) != dtype_token(w.schema()):
+                    F.add("footer", case, foot, "the true dtype " + dtype_token(w.schema()), what="empty vector")
+                elif not m and cnt and int(cnt.group(1)) != 0:
+                    F.add("footer", case, foot, "0 elements", what="empty vector")
+                # the zero-row table of that column
+                st1, t0, e1 = attempt(lambda: Table([Vector(list(src), name="x"), Vector([1, 2, 3], name="i")])[0:0])
+                if st1 != "ok" or not isinstance(t0, Table):
+                    continue
+                st, r, e = attempt(lambda: repr(t0))
+                ex += 1
+                if st != "ok" or not isinstance(r, str):
+                    F.add("repr_raises", case, type(e).__name__ + ": " + str(e)[:60], "a string", what="zero-row table")
+                else:
+                    m = TAB_FOOT.match(r.split("\n")[-1])
+                    if not m or (int(m.group(1)), int(m.group(2))) != (0, 2):
+                        F.add("footer", case, r.split("\n")[-1], "# 0×2 table", what="zero-row table")
     # "never misstates ... data": two short vectors / tables that differ in ONE visible cell never print alike, and the cell
     # of a (left-aligned) text column shows the stored text, leading blanks included.  Trailing blanks are lost in the padding
     # of the column, so pairs that differ only there are not compared.
@@ -287,14 +332,16 @@ def values(out_path):
                                 F.add("repr_data", case, pic, "a body line starting with the stored text " + repr(val))
     # repr has no memory: whatever was printed before, under whatever preview limit, the picture is that of a fresh equal object
     # under the limit in force NOW
-    for nrows in (3, 10, 30):
-        for first, second in ((12, 4), (6, 40), (4, 12), (None, 6), (40, None), (2, 3)):
+    for nrows in (3, 10, 13, 30):
+        for first, second in ((12, 4), (6, 40), (4, 12), (None, 6), (40, None), (2, 3), (20, None), (4, None)):
             cols = {"a": list(range(nrows)), "b": [str(i) for i in range(nrows)]}
             t, v = Table({k: list(x) for k, x in cols.items()}), Vector(list(cols["a"]), name="a")
             set_repr_rows(first)
             attempt(lambda: (repr(t), repr(v)))
             set_repr_rows(second)
             got = attempt(lambda: (repr(t), repr(v)))
+            if second is None:
+                set_repr_rows(12)       # None resets to the documented library default: the picture is that under an explicit 12
             want = attempt(lambda: (repr(Table({k: list(x) for k, x in cols.items()})), repr(Vector(list(cols["a"]), name="a"))))
             set_repr_rows(None)
             ex += 1
